@@ -100,6 +100,11 @@ def check(an, rep, tier):
                               line=call.lineno, file=mod.path)
     from .. import rules_api as _RA
     _RA.check_memoised(prog, rep, modules=None)
+    # results must be a function of (arguments, seed) alone: no state that
+    # survives a call (module-level tables, memo wrappers, modified mutable
+    # defaults, under-keyed memo tables)
+    from .. import rules_state as _RS
+    _RS.check_hidden_state(prog, rep, modules=None)
     rep.floor('R-draw', 15, 'draw sites with decided provenance')
     rep.floor('R-seeded-fn', 11, 'seeded public functions analysed')
     rep.floor('R-defaults', 4, 'mutable default arguments')
